@@ -159,11 +159,11 @@ Section KeywordProofs.
   Qed.
 
   Theorem kw_rec_spec : forall ic v w p,
-    first_is is_word v = true -> last_is is_word v = true ->
+    v <> [] ->
     kw_rec is_word ic v w p =
     if kw_spec is_word ic v w p then Some (slice w p (length v)) else None.
   Proof.
-    intros ic v w p Hf Hl. unfold kw_rec, kw_spec.
+    intros ic v w p Hv. unfold kw_rec, kw_spec.
     remember (slice w p (length v)) as sl eqn:Es.
     set (lit := if ic then str_eqb (lower sl) (lower v) else str_eqb sl v).
     destruct lit eqn:E; unfold lit in E.
@@ -171,18 +171,29 @@ Section KeywordProofs.
     assert (Hlit : lit_eq ic sl v).
     { destruct ic; simpl; apply str_eqb_eq; exact E. }
     pose proof (lit_len _ _ _ Hlit) as Hlen.
-    assert (Hv : v <> []). { intro Z. subst v. discriminate. }
     assert (Hsl : sl <> []).
     { intro Z. rewrite Z in Hlen. destruct v; [congruence|discriminate]. }
     destruct (slice_decomp w p sl Hsl) as [a [b [Hw Ha]]].
     { rewrite Hlen. symmetry. exact Es. }
-    assert (F1 : word_at is_word w p = true).
-    { subst w p. apply word_at_first. rewrite (lit_first _ _ _ Hlit). exact Hf. }
-    assert (F2 : word_before is_word w (p + length v) = true).
-    { subst w p. rewrite <- Hlen. apply word_before_last. rewrite (lit_last _ _ _ Hlit). exact Hl. }
-    unfold boundary. rewrite F1, F2.
+    assert (F1 : first_is is_word v = true -> word_at is_word w p = true).
+    { intro Hf. subst w p. apply word_at_first. rewrite (lit_first _ _ _ Hlit). exact Hf. }
+    assert (F2 : last_is is_word v = true -> word_before is_word w (p + length v) = true).
+    { intro Hl. subst w p. rewrite <- Hlen. apply word_before_last.
+      rewrite (lit_last _ _ _ Hlit). exact Hl. }
+    unfold boundary.
     destruct sl as [|c sl']; [congruence|].
-    destruct (word_before is_word w p); destruct (word_at is_word w (p + length v)); reflexivity.
+    destruct (first_is is_word v); destruct (last_is is_word v);
+      try rewrite (F1 eq_refl); try rewrite (F2 eq_refl);
+      destruct (word_before is_word w p); destruct (word_at is_word w (p + length v));
+      reflexivity.
+  Qed.
+
+  (* the repair changes nothing for texts that begin and end with a word character *)
+  Theorem kw_rec_preserved : forall ic v w p,
+    first_is is_word v = true -> last_is is_word v = true ->
+    kw_rec is_word ic v w p = kw_rec_bb is_word ic v w p.
+  Proof.
+    intros ic v w p Hf Hl. unfold kw_rec, kw_rec_bb. rewrite Hf, Hl. reflexivity.
   Qed.
 End KeywordProofs.
 
@@ -331,7 +342,7 @@ Lemma act_key_as_string : forall t, kw_len_ok t = true -> act_key (as_string t) 
 Proof.
   intros t H. unfold as_string, act_key, kw_len_ok in *.
   destruct (at_rec t) as [v|v|id] eqn:E; simpl; rewrite ?E; try reflexivity.
-  apply N.eqb_eq in H. rewrite H. f_equal. lia.
+  apply N.eqb_eq in H. rewrite H. reflexivity.
 Qed.
 
 Lemma fqn_as_string : forall t, at_fqn (as_string t) = at_fqn t.
